@@ -274,8 +274,11 @@ def replay_case(case):
                 g = cls.construct_array_contraction(shells1[k1], shells1[k2])
                 # judged on the scale the property names: after normalisation, absolute 1e-8
                 nn = norms[k1][:, :, None, None] * norms[k2][None, None, :, :]
+                # the code's block is normalised with the shells' OWN norm_cont: the scale of an un-normalised block is a
+                # convention (an exponent-independent factor in the primitive norm is absorbed by the renormalisation)
+                nc = shells1[k1].norm_cont[:, :, None, None] * shells1[k2].norm_cont[None, None, :, :]
                 res["dev"]["raw"] = max(res["dev"].get("raw", 0), compare(
-                    V, "Overlap.construct_array_contraction(%d,%d) (normalised)" % (k1, k2), g * nn if g.shape == raw.shape else g,
+                    V, "Overlap.construct_array_contraction(%d,%d) (normalised)" % (k1, k2), g * nc if g.shape == raw.shape else g,
                     raw * nn, 1e-8, case))
     elif what == "kinetic":
         f = gb.mod("gbasis.integrals.kinetic_energy").kinetic_energy_integral
